@@ -47,9 +47,10 @@ def value_tags(ck: Checker, fn: Func, e: ast.expr, public: Func) -> Set[str]:
     return tags
 
 
-def removal_guard_justified(ck: Checker, fn: Func, public: Func):
+def removal_guard_justified(ck: Checker, fn: Func, public: Func, _depth=None):
     """Edge predicate: edges that justify a destructive removal."""
     cache = {}
+    _depth = _depth if _depth is not None else [0]
 
     def just(n, lab) -> bool:
         if n.kind != "test" or lab != "T":
@@ -62,6 +63,20 @@ def removal_guard_justified(ck: Checker, fn: Func, public: Func):
                 # prompt(msg) returned true
                 t = value_tags(ck, fn, e.func, public) - {"neutral"}
                 ok = t == {"prompt"}
+                if not ok and _depth[0] < 3:
+                    # a helper that returns a truthy value only after one of the justifying edges
+                    for cal in ck.res.resolve(fn, e):
+                        if cal.module is fn.module and cal.fq != fn.fq:
+                            _depth[0] += 1
+                            try:
+                                gh = ck.cfg(cal)
+                                jh = removal_guard_justified(ck, cal, public, _depth)
+                                rets = [x for x in gh.nodes.values() if x.kind == "stmt" and isinstance(x.ast, ast.Return)
+                                        and not (x.ast.value is None or (isinstance(x.ast.value, ast.Constant) and not x.ast.value.value))]
+                                ok = bool(rets) and all(cut(gh, [r.id], jh) is None for r in rets)
+                                # falling off the end returns None (falsy): fine
+                            finally:
+                                _depth[0] -= 1
             elif isinstance(e, (ast.Name, ast.Attribute)):
                 t = value_tags(ck, fn, e, public) - {"neutral"}
                 ok = t in ({"force"}, {"in_cache_old"})
@@ -230,10 +245,16 @@ def _check_incache(ck: Checker) -> None:
                     arg = n.args[idx] if idx < len(n.args) else None
                 if arg is None:
                     continue
-                for alt in expand(prog, dfn, arg):
-                    if isinstance(alt, ast.Call) and call_name(alt) == "TreeEntry":
-                        found += 1
-                        _check_tree_entry(ck, dfn, n, alt, side, fields)
+                alts = [alt for alt in expand(prog, dfn, arg) if isinstance(alt, ast.Call) and call_name(alt) == "TreeEntry"]
+                if alts:
+                    found += 1
+                    verdicts = [_tree_entry_verdict(ck, dfn, alt, fields) for alt in alts]
+                    good = [v for v in verdicts if v[0] == "lookup"]
+                    bad = [v for v in verdicts if v[0] == "bad"]
+                    ck.require(bool(good) and not bad, "C05.incache", dfn, n,
+                               f"{side}.cache_meta is the cache lookup of {side}'s own oid (or None when there is no oid)",
+                               f"{side} TreeEntry: " + "; ".join(v[1] for v in bad or verdicts) + " - in_cache would describe a different object",
+                               construct=f"TreeEntry[{side}] cache_meta / oid")
     ck.floor("C05.incache", found, 2, "TreeEntry constructions inside Change(...) in hashfile.diff.diff")
 
     # the cache-check helper returns non-None only from cache.check(oid)
@@ -277,7 +298,8 @@ def _check_incache(ck: Checker) -> None:
                        "cache lookup helper can return a non-None value that is not the result of cache.check(oid) (with hash checking)")
 
 
-def _check_tree_entry(ck, dfn, site, te_call: ast.Call, side: str, fields: List[str]) -> None:
+def _tree_entry_verdict(ck, dfn, te_call: ast.Call, fields: List[str]):
+    """('lookup'|'none'|'bad', text) for one (alias-expanded) TreeEntry(...) construction."""
     def arg(name):
         for k in te_call.keywords:
             if k.arg == name:
@@ -288,22 +310,24 @@ def _check_tree_entry(ck, dfn, site, te_call: ast.Call, side: str, fields: List[
 
     cm, oid = arg("cache_meta"), arg("oid")
     if cm is None or oid is None:
-        ck.fail("C05.incache", dfn, site, f"{side} TreeEntry built without cache_meta/oid; cannot relate in_cache to the {side} object")
-        return
-    oid_names = {norm(a) for a in expand(ck.prog, dfn, oid)} | {norm(oid)}
+        return "bad", "TreeEntry built without cache_meta/oid"
+    if isinstance(cm, ast.Constant) and cm.value is None:
+        return "none", "cache_meta None"
+    parts = [cm]
+    if isinstance(cm, ast.IfExp):
+        parts = [cm.body, cm.orelse]
     ok = False
-    for alt in expand(ck.prog, dfn, cm):
-        for sub in walk_expr(alt):
+    for part in parts:
+        if isinstance(part, ast.Constant) and part.value is None:
+            continue
+        for sub in walk_expr(part):
             if isinstance(sub, ast.Call) and sub.args:
                 a0 = sub.args[0]
-                # _cache_check(<oid>.value, cache)
-                if isinstance(a0, ast.Attribute) and a0.attr == "value" and norm(a0.value) in {norm(oid)} | oid_names:
+                if isinstance(a0, ast.Attribute) and a0.attr == "value" and norm(a0.value) == norm(oid):
                     ok = True
-    # and the un-expanded spelling must reference this side's oid variable
-    ck.require(ok, "C05.incache", dfn, site,
-               f"{side}.cache_meta is the cache lookup of {side}'s own oid ({norm(oid)})",
-               f"{side} TreeEntry: cache_meta ({norm(cm)}) is not the cache lookup of the same entry's oid ({norm(oid)}); in_cache would describe a different object",
-               construct=f"TreeEntry[{side}]({norm(cm)}, ..., {norm(oid)})")
+    if ok:
+        return "lookup", "cache lookup of own oid"
+    return "bad", f"cache_meta ({norm(cm)[:80]}) is not the cache lookup of the same entry's oid ({norm(oid)[:60]})"
 
 
 def _check_linkrecord(ck: Checker, slice_) -> None:
